@@ -204,9 +204,15 @@ def gen_cases(tier, rng):
         for cwd in ([], ["w"]):
             place = cwd + ["t"]
             rpre = [ent(["sib"], "f", [1])] + [ent(place + e["p"], e["k"], e["c"]) for e in entries]
-            for given in ("t", "/" + "/".join(place), "./t", ""):
+            for given in ("t", "/" + "/".join(place), "./t", "", "/", "/w"):
                 for fb in (False, True):
                     cases.append({"op": "list", "dest": given, "cwd": cwd, "remote_pre": rpre, "block": 8192, "fallback": fb})
+            # a tree directly below the root, addressed absolutely from another working directory (on a server without MLST the
+            # client finds out what it is by listing the root)
+            rtop = [ent(["sib"], "f", [1])] + [ent(["t"] + e["p"], e["k"], e["c"]) for e in entries]
+            for fb in (False, True):
+                cases.append({"op": "remove", "dest": "/t", "cwd": ["w"], "remote_pre": rtop, "block": 8192, "fallback": fb})
+                cases.append({"op": "list", "dest": "/t", "cwd": ["w"], "remote_pre": rtop, "block": 8192, "fallback": fb})
             for given in ("t", "/" + "/".join(place), "t/a"):
                 cases.append({"op": "remove", "dest": given, "cwd": cwd, "remote_pre": rpre, "block": 8192, "fallback": rng.random() < 0.3})
     return cases
